@@ -196,3 +196,115 @@ Print Assumptions C15_svg_batching_irrelevant.
 Example C15_svg_example :
   save_svg [((1, 2), (3, 4)); ((5, 6), (-7 # 1, 8))] = (5 - (-7 # 1), 8 - 2, [(1 - (-7 # 1), 8 - 2, 3 - (-7 # 1), 8 - 4); (5 - (-7 # 1), 8 - 6, (-7 # 1) - (-7 # 1), 8 - 8)]).
 Proof. reflexivity. Qed.
+
+(* ------------------------------------------------------------------ tie to the source by translation
+   Generated/IoExpr.v is re-translated from the Go AST of render/3mf.go, render/dxf.go and
+   render/svg.go on every run (harness/iogen); Io/ExportEq.v instantiates the library calls
+   (the yofu/dxf drawing = the layer/entity model above, the svgo canvas = the record of its
+   Start/Line calls, go3mf's Encode = the record of the mesh it receives, float64 = Q,
+   float32(x) = f32round x) and proves the generated functions equal to the model functions the
+   theorems above are about, for all inputs.  Each theorem breaks when the Go function it is
+   named after changes what it computes. *)
+From Sdfx Require Io.GoSem Generated.IoExpr Io.ExportEq.
+
+(* ---- DXF *)
+Theorem C15_TRANSL_NewDXF : forall name, ExportEq.NewDXF_m name = (name, new_dxf).
+Proof. exact ExportEq.NewDXF_eq. Qed.
+Print Assumptions C15_TRANSL_NewDXF.
+
+(* SaveDXF saves under its path exactly the entities of [save_dxf] *)
+Theorem C15_TRANSL_SaveDXF : forall path mesh w,
+  ExportEq.SaveDXF_m path mesh w = GoSem.Val (w ++ [(path, save_dxf mesh)]) None.
+Proof. exact ExportEq.SaveDXF_eq. Qed.
+Print Assumptions C15_TRANSL_SaveDXF.
+
+(* writeDXF (the consumer behind ToDXF), for every list of batches received on its channel *)
+Theorem C15_TRANSL_writeDXF : forall path batches w,
+  ExportEq.writeDXF_m path batches w = GoSem.Val (w ++ [(path, write_dxf batches)]) None.
+Proof. exact ExportEq.writeDXF_eq. Qed.
+Print Assumptions C15_TRANSL_writeDXF.
+
+(* the drawing-object API: NewDXF and the operations of the state machine of Io/ExportOps.v *)
+Theorem C15_TRANSL_NewDXF_ops : forall name,
+  IoExpr.gen_NewDXF drawing2 ExportEq.dxf_drawing02 ExportEq.AddLayer2 name = (name, new_dxf2).
+Proof. exact ExportEq.NewDXF2_eq. Qed.
+Print Assumptions C15_TRANSL_NewDXF_ops.
+
+Theorem C15_TRANSL_DXF_Line : forall d l, ExportEq.DXF_Line_m d l = (fst d, op_line (snd d) l).
+Proof. exact ExportEq.DXF_Line_eq. Qed.
+Print Assumptions C15_TRANSL_DXF_Line.
+
+Theorem C15_TRANSL_DXF_Lines : forall d ls, ExportEq.DXF_Lines_m d ls = GoSem.Val (fst d, op_lines (snd d) ls) None.
+Proof. exact ExportEq.DXF_Lines_eq. Qed.
+Print Assumptions C15_TRANSL_DXF_Lines.
+
+Theorem C15_TRANSL_DXF_Points : forall d ps r, ExportEq.DXF_Points_m d ps r = GoSem.Val (fst d, op_points (snd d) ps r) None.
+Proof. exact ExportEq.DXF_Points_eq. Qed.
+Print Assumptions C15_TRANSL_DXF_Points.
+
+Theorem C15_TRANSL_DXF_Triangle : forall d a b c,
+  ExportEq.DXF_Triangle_m d (a, b, c) = GoSem.Val (fst d, op_lines (snd d) (tri_segs a b c)) None.
+Proof. exact ExportEq.DXF_Triangle_eq. Qed.
+Print Assumptions C15_TRANSL_DXF_Triangle.
+
+Theorem C15_TRANSL_DXF_Box : forall d mn mx,
+  ExportEq.DXF_Box_m d (mn, mx) = GoSem.Val (fst d, op_lines (snd d) (box_segs mn mx)) None.
+Proof. exact ExportEq.DXF_Box_eq. Qed.
+Print Assumptions C15_TRANSL_DXF_Box.
+
+(* ---- SVG *)
+Theorem C15_TRANSL_SVG_Line : forall s p0 p1,
+  ExportEq.SVG_Line_m s p0 p1 = ExportEq.svg_with s (svg_line (ExportEq.svg_st s) (p0, p1)).
+Proof. exact ExportEq.SVG_Line_eq. Qed.
+Print Assumptions C15_TRANSL_SVG_Line.
+
+(* SVG.Save on an object holding as many start as end points: Start(max-min), then per pair
+   Line(p0.X-min.X, max.Y-p0.Y, p1.X-min.X, max.Y-p1.Y, style) *)
+Theorem C15_TRANSL_SVG_Save : forall s w, ExportEq.st_ok (ExportEq.svg_st s) ->
+  ExportEq.SVG_Save_m s w =
+  GoSem.Val (ExportEq.sv_name s, svg_save (ExportEq.svg_st s),
+             [] :: map (fun _ => [ExportEq.sv_style s]) (ExportEq.st_p0s (ExportEq.svg_st s))) None.
+Proof. exact ExportEq.SVG_Save_eq'. Qed.
+Print Assumptions C15_TRANSL_SVG_Save.
+
+(* SaveSVG / writeSVG: the canvas written under the path is [save_svg] / [write_svg], no extra
+   attributes on Start, every line with the caller's style *)
+Theorem C15_TRANSL_SaveSVG : forall path style mesh w,
+  ExportEq.SaveSVG_m path style mesh w = GoSem.Val (path, save_svg mesh, [] :: map (fun _ => [style]) mesh) None.
+Proof. exact ExportEq.SaveSVG_eq. Qed.
+Print Assumptions C15_TRANSL_SaveSVG.
+
+Theorem C15_TRANSL_writeSVG : forall path style batches w,
+  ExportEq.writeSVG_m path style batches w =
+  GoSem.Val (path, write_svg batches, [] :: map (fun _ => [style]) (concat batches)) None.
+Proof. exact ExportEq.writeSVG_eq. Qed.
+Print Assumptions C15_TRANSL_writeSVG.
+
+(* ---- 3MF *)
+Theorem C15_TRANSL_toPoint3D : forall a, ExportEq.toPoint3D_m a = nq3 a.
+Proof. exact ExportEq.toPoint3D_eq. Qed.
+Print Assumptions C15_TRANSL_toPoint3D.
+
+(* addVertex (map lookup, else append and record the new index as uint32) = add_vertex of the model
+   with the float32 triple itself as key, while the map agrees with the table *)
+Theorem C15_TRANSL_addVertex : forall index tbl p, ExportEq.Imap index tbl -> (GoSem.zlen tbl < 2 ^ 32)%Z ->
+  exists index', ExportEq.addVertex_m index tbl p
+                 = (Z.of_nat (snd (ExportEq.av_now tbl p)), fst (ExportEq.av_now tbl p), index') /\
+                 ExportEq.Imap index' (fst (ExportEq.av_now tbl p)).
+Proof. exact ExportEq.addVertex_eq. Qed.
+Print Assumptions C15_TRANSL_addVertex.
+
+(* write3MF for every list of batches with fewer than 2^32 corners in total: Encode receives the
+   vertex table and index triples of [mf_write_now] on the float32 corners *)
+Theorem C15_TRANSL_write3MF : forall path batches w, (3 * GoSem.zlen (concat batches) <= 2 ^ 32)%Z ->
+  ExportEq.write3MF_m path batches w =
+  GoSem.Val (w ++ [(fst (mf_write_now (map (map (map_tri nq3)) batches)),
+                    map ExportEq.itZ (snd (mf_write_now (map (map (map_tri nq3)) batches))))]) None.
+Proof. exact ExportEq.write3MF_eq. Qed.
+Print Assumptions C15_TRANSL_write3MF.
+
+(* the statements of write3MF that put the mesh into the model (one object holding &mesh, one build
+   item, nothing else set - the unit stays go3mf's default, millimetre) are compared as text *)
+Theorem C15_TRANSL_write3MF_setup : IoExpr.gen_write3MF_setup = ExportEq.mf_setup_expected.
+Proof. exact ExportEq.mf_setup_eq. Qed.
+Print Assumptions C15_TRANSL_write3MF_setup.
